@@ -379,7 +379,7 @@ def rule_input_flow(S, res):
     def own_share_operand(bk, b, o):
         if o["k"] == "const":
             return False
-        back = fg.backward(fg.operand_nodes(bk, o), node_ok=lambda n: n[0] == bk, edge_ok=lambda e: e.kind in ("copy", "ref", "base2field", "call", "lcall", "field2whole") and (e.kind != "call" or secmod.struct_edge(e)), local=True)
+        back = fg.backward(fg.operand_nodes(bk, o), node_ok=lambda n: n[0] == bk, edge_ok=lambda e: e.kind in ("copy", "ref", "base2field", "call", "lcall", "field2whole", "agg") and (e.kind != "call" or secmod.struct_edge(e)), local=True)
         has_share = any(DT + "Share" in S.node_ty(n) for n in back)
         return has_share and not any(n in all_comp for n in back)
     good_xors = set()   # (bk, block, idx) of XOR statements input ^ own_share
@@ -392,7 +392,7 @@ def rule_input_flow(S, res):
                     for x, y in ((a, c), (c, a)):
                         if x["k"] == "const":
                             continue
-                        bx = fg.backward(fg.operand_nodes(k, x), node_ok=lambda n: n[0] == "F" or n[0] == k, edge_ok=lambda e: e.kind in ("copy", "ref", "base2field", "call") and (e.kind != "call" or secmod.struct_edge(e)))
+                        bx = fg.backward(fg.operand_nodes(k, x), node_ok=lambda n: n[0] == "F" or n[0] == k, edge_ok=lambda e: e.kind in ("copy", "ref", "base2field", "field2whole", "agg", "call") and (e.kind != "call" or secmod.struct_edge(e)))
                         if src in bx and own_share_operand(k, b, y):
                             good_xors.add((k, bi, si))
                             n_x += 1
@@ -695,6 +695,132 @@ def rule_delta_declass(S, res):
     res.count("delta_declassifications", dict(n_san))
     if not bad:
         res.ok("R6.4", "delta|all-sends", "", "%d send sites: Delta reaches none of the payloads except through %s" % (n, ", ".join(sorted(n_san))))
+
+
+def rule_peer_selected_offset(S, res, cs):
+    """R6.6 (C07, "an opened key sum is never offset by the global key at a peer's choosing"): a value that carries
+    Delta and is hidden only by own *Keys* (the peers hold the matching MACs, so they know such a pad up to Delta)
+    reaches the payload of a send, and whether Delta is in it is decided by a branch on a bit taken from a received
+    message.  That is only harmless when the bit has been verified - a MAC comparison under the own key and Delta
+    on the message the bit came from - before the value is sent (aShare step 3c); otherwise a peer that lies about
+    the bit obtains value ^ Delta next to the value it can compute itself."""
+    fg = S.fg
+    from an import control_deps
+    all_comp = set()
+    for d in S.comp.values():
+        all_comp |= set(d.keys())
+    eng = {k for k, b in engine_bodies(fg)}
+    seeds = []
+    for k, b in engine_bodies(fg):
+        for i, l in enumerate(b.locals):
+            if l["ty"].lstrip("&") == T_DELTA:
+                seeds.append((k, i, None))
+    for (bk, l, f), ty in fg.field_ty.items():
+        if ty.lstrip("&") == T_DELTA and bk in fg.bodies and "fpre" not in bk and "bench" not in bk:
+            seeds.append((bk, l, f))
+
+    def edge_ok(e):
+        if e.dst[0] == "F" or e.src[0] == "F" or e.dst[0] not in eng:
+            return False
+        if fg.bodies[e.src[0]].owner != fg.bodies[e.dst[0]].owner:
+            return False
+        if e.kind in ("shape", "discr"):
+            return False
+        info = e.info if isinstance(e.info, dict) else {}
+        names = info.get("names") or []
+        if e.kind in ("call", "lcall", "mutarg", "mutarg2") and names and _is_sanitizer(names):
+            return False
+        if e.kind in ("lcall", "call") and names:
+            for n in names:
+                if "BitXor<mpc::data_types::Delta>" in n and "data_types::Label" in n:
+                    return False      # a fresh private label is a pad the peers know nothing about
+        if e.kind == "bin" and e.info in ("Eq", "Ne", "Lt", "Gt", "Le", "Ge"):
+            return False
+        return True
+    reach = fg.forward(seeds, edge_ok=edge_ok, local=True, deep=True)
+    # branches decided by a received bit
+    cand = {}
+    for bk in {n[0] for n in reach if n[0] != "F"}:
+        b = fg.bodies[bk]
+        cd = control_deps(b)
+        peer_sw = {}
+        for bi, blk in enumerate(b.blocks):
+            t = blk["t"]
+            if t["k"] != "switch" or t["o"]["k"] == "const":
+                continue
+            back = fg.backward(fg.operand_nodes(bk, t["o"]), node_ok=lambda n: n[0] == bk,
+                               edge_ok=lambda e: e.kind not in ("shape", "discr") and not (e.kind in ("call", "lcall") and not secmod.struct_edge(e)), local=True)
+            src = [n for n in back if n in all_comp and S.node_ty(n).lstrip("&") in ("bool", "u8")]
+            if src:
+                peer_sw[bi] = src
+        # arithmetic selection: `(bit as u128) * delta.0`, `bit & delta`
+        for e in [e for n in reach if n[0] == bk for e in fg.out.get(n, ())]:
+            if e.block is None or e.body != bk or e.kind != "bin" or e.info not in ("Mul", "BitAnd") or e.idx == "t":
+                continue
+            r = b.blocks[e.block]["s"][e.idx]["r"]
+            if r.get("k") != "bin":
+                continue
+            for o in (r["a"], r["b"]):
+                if o["k"] == "const":
+                    continue
+                on = fg.operand_nodes(bk, o)
+                if e.src in on:
+                    continue
+                back = fg.backward(on, node_ok=lambda n: n[0] == bk, edge_ok=lambda e2: e2.kind in ("copy", "cast", "un", "ref", "base2field", "field2whole", "index") or (e2.kind == "bin" and e2.info in ("BitXor", "Ne", "Eq")) or (e2.kind == "call" and secmod.struct_edge(e2)), local=True)
+                src = [n for n in back if n in all_comp and S.node_ty(n).lstrip("&") in ("bool", "u8")]
+                if src:
+                    cand.setdefault(e.dst, []).append((e, e.block, src))
+        if not peer_sw:
+            continue
+        for e in [e for n in reach if n[0] == bk for e in fg.out.get(n, ())]:
+            if e.block is None or e.body != bk or not edge_ok(e):
+                continue
+            sws = [a for (a, s_) in cd.get(e.block, ()) if a in peer_sw]
+            if sws:
+                cand.setdefault(e.dst, []).append((e, sws[0], peer_sw[sws[0]]))
+    n_sel = len(cand)
+    res.count("peer_selected_delta_offsets", n_sel)
+    if not cand:
+        res.ok("R6.6", "delta|peer-selected-offset", "", "no Delta-carrying value is selected by a branch on a received bit")
+        return
+    reach2 = fg.forward(list(cand), edge_ok=edge_ok, local=True, deep=True)
+    done = set()
+    for s in S.send_sites:
+        if s.bk not in eng:
+            continue
+        nodes = fg.operand_nodes(s.bk, s.term["args"][-1])
+        hit = [x for x in nodes if x in reach2]
+        if not hit:
+            continue
+        lab = "/".join(s.label or ["?"])
+        inst = "%s|%s|peer-selected-offset" % (s.body.owner.rsplit("::", 1)[-1], lab)
+        if inst in done:
+            continue
+        path = None
+        for h in hit:
+            p = fg.path_to(reach2, h)
+            root = p[0].src if p else h
+            # the selection has to lie before the send (the value-flow graph is flow-insensitive)
+            sel = [(e0, sw, bits) for (e0, sw, bits) in cand.get(root, []) if e0.body != s.bk or s.block in s.body.reachable_from(e0.block)]
+            if not sel:
+                continue
+            e0, sw, bits = sel[0]
+            path = p
+            break
+        if path is None:
+            continue
+        done.add(inst)
+        labs = set()
+        for n in bits:
+            labs |= S.labels_of(n)
+        ver = [c for c in cs if c.bk == s.bk and {"CMP", "DELTA"} <= c.ing and (c.labels & labs)
+               and s.block in c.body.reachable_from(c.block) and c.block not in c.body.reachable_from(s.block)]
+        if ver:
+            res.ok("R6.6", inst, fl(s.sp), "the received bit (%s) that selects the Delta offset is MAC-checked under the own key at %s before %r is sent" % ("/".join(sorted(labs)), ver[0].where(), lab))
+        else:
+            b = fg.bodies[s.bk]
+            res.bad("R6.6", inst, "a bit received in %r decides (branch at %s) whether the value sent as %r is offset by the global key; the value is hidden only by own keys whose MACs the peers hold, and the bit is not verified before the send: a peer that misreports the bit receives value ^ Delta and, with the value its own state determines, Delta" % ("/".join(sorted(labs)) or "?", where(b, sw), lab), fl(s.sp),
+                    witness=[fg.describe_edge(e) for e in path[-8:]], key="R6.6|%s|%s" % (s.body.owner.rsplit("::", 1)[-1], lab))
 
 
 def rule_label_declass(S, res):
